@@ -922,10 +922,6 @@ package go_clipper2
 //@   props C03
 //@   panicfree
 
-//@ func getLocation
-//@   props C03
-//@   panicfree
-
 //@ func getRealOutRec
 //@   props C03
 //@   panicfree
@@ -1272,3 +1268,36 @@ package go_clipper2
 //@   assumes forall(k, 0, len(co.groupList), co.groupList[k] != nil)
 //@   loop 0.0 step [copies-input] len(*co.solution) == old(len(*co.solution)) + 1 && same((*co.solution)[len(*co.solution)-1], path)
 //@   assert after c.reverseSolution [orientation-pairing] c.reverseSolution == (co.ReverseSolution != pathsReversed) && fillRule == ite(pathsReversed, Negative, Positive) && c.preserveCollinear == co.PreserveCollinear
+
+// ---------------------------------------------------------------------------------
+// C06 / C11: rectangle clipping
+// ---------------------------------------------------------------------------------
+
+//@ spec onRectBoundary(r Rect64, p Point64) bool = ((p.X == r.left || p.X == r.right) && r.top <= p.Y && p.Y <= r.bottom) || ((p.Y == r.top || p.Y == r.bottom) && r.left <= p.X && p.X <= r.right)
+//@ spec inBox1(p, a, b Point64) bool = min(a.X, b.X) - 1 <= p.X && p.X <= max(a.X, b.X) + 1 && min(a.Y, b.Y) - 1 <= p.Y && p.Y <= max(a.Y, b.Y) + 1
+//@ spec inBox(p, a, b Point64) bool = min(a.X, b.X) <= p.X && p.X <= max(a.X, b.X) && min(a.Y, b.Y) <= p.Y && p.Y <= max(a.Y, b.Y)
+
+//@ func getLocation
+//@   props C06 C11 C03
+//@   ensures [boundary] !result1 == onRectBoundary(rec, pt)
+//@   ensures [side-on-boundary] !result1 ==> ((result0 == Left && pt.X == rec.left) || (result0 == Right && pt.X == rec.right) || (result0 == Top && pt.Y == rec.top) || (result0 == Bottom && pt.Y == rec.bottom))
+//@   ensures [inside] result1 ==> ((result0 == Inside) == (rec.left < pt.X && pt.X < rec.right && rec.top < pt.Y && pt.Y < rec.bottom))
+//@   ensures [outside] (result1 && result0 != Inside) ==> ((result0 == Left && pt.X < rec.left) || (result0 == Right && pt.X > rec.right) || (result0 == Top && pt.Y < rec.top && rec.left <= pt.X && pt.X <= rec.right) || (result0 == Bottom && pt.Y > rec.bottom && rec.left <= pt.X && pt.X <= rec.right))
+
+//@ func getSegmentIntersection
+//@   props C06 C11 C03
+//@   requires dom(p1, 29) && dom(p2, 29) && dom(p3, 29) && dom(p4, 29)
+//@   requires p3.X == p4.X || p3.Y == p4.Y
+//@   ensures [touching-cases-on-rect-edge] (result1 && (cross(p1, p3, p4) == 0 || cross(p2, p3, p4) == 0 || cross(p3, p1, p2) == 0 || cross(p4, p1, p2) == 0)) ==> inBox(result0, p3, p4)
+//@   ensures [no-crossing-no-result] (cross(p1, p3, p4) != 0 && cross(p2, p3, p4) != 0 && (cross(p1, p3, p4) > 0) == (cross(p2, p3, p4) > 0)) ==> !result1
+
+//@ spec allInRect(r Rect64, path Path64) bool = forall(k, 0, len(path), inBounds(r, path[k]))
+//@ spec allBeside(r Rect64, path Path64) bool = forall(k, 0, len(path), path[k].X < r.left) || forall(k, 0, len(path), path[k].X > r.right) || forall(k, 0, len(path), path[k].Y < r.top) || forall(k, 0, len(path), path[k].Y > r.bottom)
+
+//@ func RectClip64.Execute variant fastpaths
+//@   props C06 C11
+//@   nosafety
+//@   loop 0 step [short-paths-skipped] len(path) < 3 ==> same(result, old(result))
+//@   loop 0 step [inside-unchanged] (len(path) >= 3 && allInRect(r.rect, path)) ==> (len(result) == old(len(result)) + 1 && same(result[len(result)-1], path) && forall(k, 0, old(len(result)), same(result[k], old(result)[k])))
+//@   loop 0 step [outside-vanishes] (len(path) >= 3 && allBeside(r.rect, path)) ==> same(result, old(result))
+//@   ensures [empty-rect] (r.rect.bottom <= r.rect.top || r.rect.right <= r.rect.left) ==> len(result) == 0
